@@ -170,6 +170,11 @@ func expect(c Case) ([]*hx.N, *stats, error) {
 	if c.Proc {
 		m.st.add("page-rewritten-by-a-node-processor")
 	}
+	for bit, name := range []string{"slot-prop-v-bind", "include-prop-v-bind", "upper-case-tags", "single-quoted-values", "slot-closed-by-parent"} {
+		if c.Spell&(1<<bit) != 0 {
+			m.st.add("spelling:" + name)
+		}
+	}
 	for _, v := range c.Data {
 		switch v.K {
 		case "[]srec", "[]*srec", "[]sstr", "[]*sstr":
